@@ -179,10 +179,14 @@ struct SampleRun {
         std::vector<uint8_t> h = unhex(op.s.empty() ? "" : op.s[0]); h.resize(g == 1 ? 48 : 96);
         Buf out(R.sz(g == 1 ? JV_SZ_G1A : JV_SZ_G2A)), out2(out.n); Buf id(R.sz(JV_SZ_LQ_ID)), id2(R.sz(JV_SZ_LQ_ID));
         env.lib_calls += 2;
-        if (g == 1) { R.jv_g1affine_from_hash(view, out, h.data()); R.jv_g1affine_from_hash(view, out2, h.data()); }
-        else { R.jv_g2affine_from_hash(view, out, h.data()); R.jv_g2affine_from_hash(view, out2, h.data()); }
+        // every third call hashes in place: the caller keeps the digest in the very object that receives the point (offset 0, the x field)
+        bool inplace = (h[1] % 3) == 0 && out2.n >= h.size();
+        if (inplace) { memcpy(out2.p, h.data(), h.size()); env.count("probe:in_place_call_output_is_the_input_object"); }
+        const uint8_t* h2 = inplace ? out2.p : h.data();
+        if (g == 1) { R.jv_g1affine_from_hash(view, out, h.data()); R.jv_g1affine_from_hash(view, out2, h2); }
+        else { R.jv_g2affine_from_hash(view, out, h.data()); R.jv_g2affine_from_hash(view, out2, h2); }
         auto canon = [&](const void* a) { uint8_t c[193]; if (g == 1) { R.jv_g1a_canon(c, a); return std::string((char*) c, 97); } R.jv_g2a_canon(c, a); return std::string((char*) c, 193); };
-        env.check(canon(out) == canon(out2), "C10", "hash-to-curve:deterministic", "hashing the same bytes twice gave different points");
+        env.check(canon(out) == canon(out2), "C10", "hash-to-curve:deterministic", inplace ? "hashing the same bytes gave a different point when the digest was kept inside the result object" : "hashing the same bytes twice gave different points");
         // model
         size_t nc = g == 1 ? 1 : 2; Bn x[2];     // x[0] = c0, x[1] = c1
         for (size_t i = 0; i < nc; i++) { uint8_t t[48]; memcpy(t, &h[i * 48], 48); t[0] &= 0x1F; Bn v = Bn::mod(Bn::from_be(t, 48), K().q); if (g == 1) x[0] = v; else x[1 - i] = v; }
@@ -233,7 +237,7 @@ struct SampleScenario : Scenario {
         static const char* f32[] = {"storm32:2", "storm32:9", "storm32:60", "fr:r-1", "fr:r", "fr:r+1", "fr:0", "fr:r-1hi", "const:255", "const:0", "const:127"};
         static const char* f48[] = {"storm48:2", "storm48:11", "fq:q-1", "fq:q", "fq:q+1", "fq:0", "fq:q-1hi", "sign:0", "sign:1", "sign:254", "const:255", "const:0"};
         auto faults = [&](const char** tab, size_t nt) { std::vector<std::string> v; if (r.chance(1, 2)) return v; int k = r.range(1, 3); for (int i = 0; i < k; i++) v.push_back(tab[r.below(nt)]); return v; };
-        static const char* kcodes[] = {"0", "1", "2", "r-1", "r", "r+1", "2r", "2r+1", "max", "2^255"};
+        static const char* kcodes[] = {"0", "1", "2", "r-1", "r", "r+1", "2r", "2r+1", "max", "2^255", "2^64", "2^64+3", "2^64-1", "2^100+12345", "2^128-1", "2^128", "2^192", "2^32", "2^63", "2^127+1"};
         for (int i = 0; i < n; i++) {
             int k = r.range(0, 9); int64_t ss = (int64_t) (r.next() >> 1);
             if (focus == 7) k = r.chance(3, 4) ? r.range(4, 6) : k;
@@ -241,7 +245,7 @@ struct SampleScenario : Scenario {
             if (k <= 1) { int which = r.range(0, 3); p.ops.push_back({"ZP", {ss, which}, which == 2 ? faults(f8, 15) : which == 3 ? faults(f48, 7) : faults(f32, 11)}); }
             else if (k <= 3) p.ops.push_back({"GEN", {ss, r.range(0, 1), r.range(0, 1)}, faults(f48, 12)});
             else if (k <= 5) p.ops.push_back({"GTR", {ss, (int64_t) r.below(8), r.chance(1, 4), r.chance(1, 3)}, faults(f8, 15)});
-            else if (k == 6) p.ops.push_back({"GTPOW", {(int64_t) r.below(8), r.chance(1, 3)}, {r.chance(1, 3) ? "x" + rhex(r, 32) : std::string(kcodes[r.below(10)])}});
+            else if (k == 6) p.ops.push_back({"GTPOW", {(int64_t) r.below(8), r.chance(1, 3)}, {r.chance(1, 3) ? "x" + rhex(r, 32) : std::string(kcodes[r.below(20)])}});
             else if (k == 7) {
                 std::string h = rhex(r, 32); int m = r.range(0, 7);
                 Bn v; if (m == 0) v = K().r; else if (m == 1) v = Bn::sub(K().r, Bn(1)); else if (m == 2) v = Bn::add(K().r, Bn(1)); else if (m == 3) v = Bn::add(K().r, Bn(1).shl(255)); else if (m == 4) v = Bn::sub(Bn(1).shl(256), Bn(1)); else if (m == 5) v = Bn::sub(Bn(1).shl(255), Bn(1));
